@@ -1052,6 +1052,27 @@ func (ev *evalCtx) call(x *ast.CallExpr, want types.Type) (string, types.Type, e
 			return "", nil, fmt.Errorf("eq: sequence of unknown length")
 		}
 		return fmt.Sprintf("(and (= %s %s) (forall ((%s (_ BitVec 64))) (=> (and (bvsle #x0000000000000000 %s) (bvslt %s %s)) (= %s %s))))", la, lb, qv, qv, qv, la, seqAt(a, qv), seqAt(b, qv)), boolT, nil
+	case "samebase":
+		// samebase(a, b): a and b (pointers or slices) refer into the same allocation
+		if err := argc(2); err != nil {
+			return "", nil, err
+		}
+		var bases []string
+		for _, arg := range x.Args {
+			a, t, err := ev.expr(arg, nil)
+			if err != nil {
+				return "", nil, err
+			}
+			switch ev.c.te.sortOf(t) {
+			case "Loc":
+				bases = append(bases, fmt.Sprintf("(base %s)", a))
+			case "Slice":
+				bases = append(bases, fmt.Sprintf("(base (s_arr %s))", a))
+			default:
+				return "", nil, fmt.Errorf("samebase of %s", t)
+			}
+		}
+		return fmt.Sprintf("(= %s %s)", bases[0], bases[1]), boolT, nil
 	case "sep":
 		// sep(a, b): a and b (pointers or slices) lie in different allocations, or one is nil
 		if err := argc(2); err != nil {
@@ -1215,8 +1236,8 @@ func (ev *evalCtx) call(x *ast.CallExpr, want types.Type) (string, types.Type, e
 			o.env = n.env
 			n.old = &o
 		}
-		t, err := n.boolExpr(pc.PredBody.Expr)
-		return t, boolT, err
+		// a pred is a macro: its body may be a formula or any other term
+		return n.expr(pc.PredBody.Expr, want)
 	}
 	return "", nil, fmt.Errorf("unknown function %s in contract expression", id.Name)
 }
